@@ -18,6 +18,7 @@ Definition check (prop : Z) (inp impl : sx) : sx :=
        | 13 | 14 => check_iso prop inp impl
        | 18 => check_shared prop inp impl
        | 19 => check_hs_timed prop inp impl
+       | 21 => check_req prop inp impl
        | 15 | 16 => check_life prop inp impl
        | 17 => check_kern prop inp impl
        | _ => badcase
